@@ -4,6 +4,7 @@ import (
 	"fmt"
 	"net"
 	"strconv"
+	"strings"
 	"time"
 
 	"verifharness/core"
@@ -365,7 +366,7 @@ func runStalledSwitch(ctx *core.Ctx, bin string) {
 	pa.PauseOnRequest("$3\r\naof\r\n") // the old leader's answer to the next stream request is held back
 	pa.DropAll()
 	time.Sleep(1800 * time.Millisecond) // the follower's retry is inside its stalled step
-	pb.PauseFromAccept(2) // the FOLLOW command's own look at the new leader passes, the stream connections stall
+	pb.PauseFromAccept(2)               // the FOLLOW command's own look at the new leader passes, the stream connections stall
 	if r, err := fc.Do("FOLLOW", "127.0.0.1", strconv.Itoa(pb.Port())); err != nil || r.IsErr() {
 		// FOLLOW checks the new leader first; with the stream stalled it may be refused: no verdict
 		ctx.Count("stalled_switch_follow_refused", 1)
@@ -406,4 +407,105 @@ func runStalledSwitch(ctx *core.Ctx, bin string) {
 	if ok, why := quiescentCopy(b, f, 25*time.Second); !ok {
 		ctx.Violation("switch-leader-diff", "after the stalled switch the follower does not become a healthy copy of its new leader: "+why, map[string]any{"scenario": "stalled-switch"})
 	}
+}
+
+// runStalePosition: the follower has compared logs with its leader and its
+// request for the stream from the agreed position is still on the way when the
+// leader completes an AOFSHRINK. The position belongs to the log as it was; all
+// commands here have one length, so it is a command boundary of the rewritten
+// log too and nothing garbles. The follower must not end up healthy with the
+// tail of the rewritten log applied on top of its old dataset.
+func runStalePosition(ctx *core.Ctx, bin string) {
+	l, err := srv.Start(srv.Opts{Bin: bin})
+	if err != nil {
+		ctx.Inconclusive("stale-position: " + err.Error())
+		return
+	}
+	defer l.Kill9()
+	f, err := srv.Start(srv.Opts{Bin: bin})
+	if err != nil {
+		ctx.Inconclusive("stale-position: " + err.Error())
+		return
+	}
+	defer f.Kill9()
+	lc, e1 := dial(l)
+	fc, e2 := dial(f)
+	if e1 != nil || e2 != nil {
+		ctx.Inconclusive("stale-position: dial")
+		return
+	}
+	defer lc.Close()
+	defer fc.Close()
+	set := func(i int) {
+		// the form in which the rewrite itself writes a 2D point: old and rewritten records have one length
+		lc.Do("set", "fleet", fmt.Sprintf("id%02d", i), "object", fmt.Sprintf(`{"type":"Point","coordinates":[%d,%d]}`, 10+i, 10+i))
+	}
+	for i := 0; i < 20; i++ {
+		set(i)
+	}
+	px, err := proxy.Start(l.Addr())
+	if err != nil {
+		ctx.Inconclusive("stale-position: " + err.Error())
+		return
+	}
+	defer px.Close()
+	if r, err := fc.Do("FOLLOW", "127.0.0.1", strconv.Itoa(px.Port())); err != nil || r.IsErr() {
+		ctx.Inconclusive("stale-position: FOLLOW failed")
+		return
+	}
+	if ok, why := quiescentCopy(l, f, 20*time.Second); !ok {
+		ctx.Inconclusive("stale-position: first synchronisation: " + why)
+		return
+	}
+	px.HoldRequest("$3\r\naof\r\n")
+	px.DropAll()
+	held := false
+	for dl := time.Now().Add(15 * time.Second); time.Now().Before(dl); time.Sleep(5 * time.Millisecond) {
+		if px.RequestHeld() {
+			held = true
+			break
+		}
+	}
+	if !held {
+		ctx.Inconclusive("stale-position: the follower's stream request was not seen")
+		return
+	}
+	size := func() string {
+		m, _ := serverMap(lc)
+		return m["aof_size"]
+	}
+	lc.Do("DEL", "fleet", "id00")
+	set(20)
+	set(21)
+	before := size()
+	lc.Do("AOFSHRINK")
+	done := false
+	for dl := time.Now().Add(20 * time.Second); time.Now().Before(dl); time.Sleep(10 * time.Millisecond) {
+		if rp, err := lc.Do("INFO", "persistence"); err == nil && size() != before && !strings.Contains(rp.String(), "aof_rewrite_in_progress:1") {
+			done = true
+			break
+		}
+	}
+	if !done {
+		ctx.Inconclusive("stale-position: the rewrite did not finish")
+		return
+	}
+	px.ReleaseRequest()
+	ctx.Eval(1)
+	ctx.Distinct("stale-position-after-rewrite")
+	if ok, why := quiescentCopy(l, f, 25*time.Second); !ok {
+		ctx.Violation("stale-position-after-rewrite", "the follower's request for the stream (position agreed by the log comparison) reached the leader after an AOFSHRINK had replaced the log; leader: DEL id00, SET id20, SET id21, AOFSHRINK in between: "+why, map[string]any{"scenario": "stale-position"})
+	}
+}
+
+func serverMap(c *respc.Conn) (map[string]string, error) {
+	r, err := c.Do("SERVER")
+	if err != nil {
+		return nil, err
+	}
+	m := map[string]string{}
+	for i := 0; i+1 < len(r.Arr); i += 2 {
+		m[r.Arr[i].Str] = r.Arr[i+1].Text()
+	}
+	return m, nil
 }
